@@ -22,6 +22,43 @@ type Case struct {
 	// run: "oversized-partial" (header + part of the body of an oversized message),
 	// "message-partial" (part of an ordinary message), "" (none). It must not affect the others.
 	Staller string `json:"staller,omitempty"`
+	// Prelude: connections that came and went before the sessions start: "served" (start-up,
+	// Terminate), "startup-abort" (half a start-up packet, then gone), "ssl-abort" (SSLRequest
+	// answered, then gone), "ssl-garbage" (SSLRequest, then bytes that are no TLS handshake),
+	// "tls-no-startup" (TLS negotiated, then gone). What they left behind must not reach the sessions.
+	Prelude []string `json:"prelude,omitempty"`
+}
+
+func prelude(env *script.Env, kind string) {
+	switch kind {
+	case "served":
+		s := env.NewSess()
+		s.Startup([][2]string{{"user", "prelude"}}, nil)
+		s.C.Send(pgwire.Terminate())
+		s.C.CloseWrite()
+		s.C.WaitClosed(script.Guard)
+	case "startup-abort":
+		c := env.Dial()
+		c.Send(pgwire.Startup([][2]string{{"user", "prelude"}})[:11])
+		c.WaitIdle(script.Guard)
+		c.CloseWrite()
+		c.WaitClosed(script.Guard)
+	case "ssl-abort", "ssl-garbage":
+		c := env.Dial()
+		c.Send(pgwire.SSLRequest())
+		c.WaitIdle(script.Guard)
+		if kind == "ssl-garbage" {
+			c.Send([]byte("GET / HTTP/1.1\r\nHost: prelude\r\n\r\n"))
+			c.WaitIdle(script.Guard)
+		}
+		c.CloseWrite()
+		c.WaitClosed(script.Guard)
+	case "tls-no-startup":
+		if ts, err := env.NewTLSSess(); err == nil {
+			ts.C.CloseWrite()
+			ts.C.WaitClosed(script.Guard)
+		}
+	}
 }
 
 type sessResult struct {
@@ -116,6 +153,17 @@ func Run(c Case) core.Result {
 
 	// concurrent run
 	cr := newRunner(c.Cfg, c.Sessions)
+	for _, k := range c.Prelude {
+		prelude(cr.env, k)
+	}
+	if len(c.Prelude) > 0 {
+		res.Labels = append(res.Labels, "earlier-connections")
+		for _, k := range c.Prelude {
+			if strings.HasPrefix(k, "ssl") || strings.HasPrefix(k, "tls") {
+				res.Labels = append(res.Labels, "earlier-connection="+k)
+			}
+		}
+	}
 	if c.Staller != "" {
 		res.Labels = append(res.Labels, "staller="+c.Staller)
 		st := cr.env.NewSess()
